@@ -47,12 +47,13 @@ def verifierDrop (checksPanicking : Bool) (expected cnt : Nat) (panicking : Bool
 def lifetime (resetOnInstall : Bool) (n : Nat) (cntBefore : Nat) (calls : List Bool) : List CallOut × Nat :=
   runCalls n (if resetOnInstall then 0 else cntBefore) calls
 
-/-- consecutive lifetimes of the same call site; returns each lifetime's call outcomes and
-    exit verdict -/
-def lifetimes (resetOnInstall checksPanicking : Bool) : Nat → List (Nat × List Bool) → List (List CallOut × ExitOut)
+/-- consecutive lifetimes of the same call site, each `(N, calls, unwinding)`: `unwinding` says
+    the scope is left by a panic raised in the body (the verifier is then dropped while
+    `thread::panicking()`); returns each lifetime's call outcomes and exit verdict -/
+def lifetimes (resetOnInstall checksPanicking : Bool) : Nat → List (Nat × List Bool × Bool) → List (List CallOut × ExitOut)
   | _, [] => []
-  | cnt, (n, calls) :: rest =>
+  | cnt, (n, calls, unw) :: rest =>
     let r := lifetime resetOnInstall n cnt calls
-    (r.1, verifierDrop checksPanicking n r.2 false) :: lifetimes resetOnInstall checksPanicking r.2 rest
+    (r.1, verifierDrop checksPanicking n r.2 unw) :: lifetimes resetOnInstall checksPanicking r.2 rest
 
 end Inj.Counter
